@@ -31,7 +31,8 @@ namespace
     using PlanT = std::vector<Op>;
 
     Counter c_calls("sim", "calls"), c_ticks("sim", "ticks(simulated_time)");
-    Counter cl_budget("clause", "call_returned_within_tick_budget"), cl_backstop("clause", "plan_finished_under_cpu_watchdog");
+    Counter c_blocks("sim", "basic_blocks_executed"), p_over10k_blocks("probe", "call_executed_more_than_2000_basic_blocks"), cl_blocks("info", "block_budget_exceeded(only_on_violation)");
+    Counter cl_budget("clause", "call_returned_within_tick_and_block_budget"), cl_backstop("clause", "plan_finished_under_cpu_watchdog");
     Counter p_tick_calls("probe", "calls_that_reached_a_tick_site"), p_mixed("probe", "calls_with_mixed_lane_vectors"), p_special("probe", "calls_with_inf_nan_or_denormal_principal"),
         p_huge("probe", "calls_with_principal_magnitude_ge_2^24"), p_over100("probe", "calls_with_more_than_100_ticks");
     Counter f_mag("fault_configured", "none(property has no fault; the seeded dimension is the lane vector)");
@@ -61,6 +62,9 @@ namespace
         std::vector<FnEntry> table;
         std::map<std::string, int> index;
         std::map<std::string, uint64_t> max_ticks; // per "fn/type"
+        std::map<std::string, uint64_t> max_blocks; // per "fn/type/arch-width": basic blocks of one call
+        uint64_t last_blocks = 0;
+        bool last_block_exceeded = false;
         uint64_t max_ops = 64;
         uint64_t watchdog_ms = 400;
         std::string only_fn;
@@ -89,6 +93,7 @@ namespace
         {
             max_ops = p.u64("max_ops", 64);
             tick_clock().budget = p.u64("budget", 4096);
+            tick_clock().block_budget = p.u64("block_budget", 1u << 18);
             watchdog_ms = p.u64("watchdog_ms", 400);
             only_fn = p.str("only_fn", "");
         }
@@ -126,6 +131,17 @@ namespace
             run_call(op, t, exceeded, nullptr);
             if (t == 0)
                 throw std::runtime_error("C14 self-test: tgamma(10.5) produced no tick - XSIMD_VERIF_LOOP_TICK hooks are not compiled in");
+            if (last_blocks == 0)
+                throw std::runtime_error("C14 self-test: tgamma(10.5) advanced the basic-block clock by 0 - the kernels are not compiled with -fsanitize-coverage=trace-pc");
+            {
+                // and the block budget must stop a call: with a budget of 3 blocks the same call has to be aborted
+                uint64_t keep = c.block_budget;
+                c.block_budget = 3;
+                run_call(op, t, exceeded, nullptr);
+                c.block_budget = keep;
+                if (!exceeded || !last_block_exceeded)
+                    throw std::runtime_error("C14 self-test: the basic-block clock did not stop a call at its budget");
+            }
             c.n_sites = 0;
             c.total = 0;
         }
@@ -301,6 +317,53 @@ namespace
             }
         }
 
+        // lanes of an integer batch, as raw 64-bit words of the 256-byte operand buffer (32-bit elements: one lane per word, see run_call)
+        void fill_raw_int(sim::Rng& rng, const FnEntry& fe, uint64_t* words)
+        {
+            const int bits = 8 * fe.elem_size;
+            const uint64_t lane_mask = bits == 64 ? ~0ull : ((1ull << bits) - 1);
+            auto rep = [&](uint64_t lane) -> uint64_t
+            {
+                lane &= lane_mask;
+                if (bits == 32 || bits == 64)
+                    return lane; // 32-bit lanes are packed from the low half of each word
+                uint64_t w = 0;
+                for (int k = 0; k < 64; k += bits)
+                    w |= lane << k;
+                return w;
+            };
+            unsigned mode = (unsigned)rng.below(4);
+            for (int i = 0; i < 32; ++i)
+            {
+                uint64_t w;
+                switch (mode == 3 ? rng.below(7) : rng.below(7) % (mode + 5))
+                {
+                case 0:
+                    w = rng.next();
+                    break;
+                case 1:
+                    w = rep(0);
+                    break;
+                case 2:
+                    w = rep(lane_mask); // -1 / UMAX
+                    break;
+                case 3:
+                    w = rep(1ull << (bits - 1)); // MIN of the signed type
+                    break;
+                case 4:
+                    w = rep((1ull << (bits - 1)) - 1); // MAX of the signed type
+                    break;
+                case 5:
+                    w = rep(rng.below(8));
+                    break;
+                default:
+                    w = rep(1ull << rng.below((uint64_t)bits));
+                    break;
+                }
+                words[i] = w;
+            }
+        }
+
         Plan generate(sim::Rng& rng)
         {
             Plan plan;
@@ -330,6 +393,18 @@ namespace
                 Op op;
                 op.fn = pool[rng.below(pool.size())];
                 const FnEntry& fe = table[(size_t)op.fn];
+                if (fe.tname[0] != 'f')
+                {
+                    // integer batches: raw lane words (extremes, small values, random bits)
+                    fill_raw_int(rng, fe, op.a);
+                    fill_raw_int(rng, fe, op.b);
+                    op.family = 8;
+                    op.binade = (int)(op.a[0] & 63);
+                    op.sign = (int)(op.a[0] >> 63);
+                    op.companions = 3;
+                    plan.push_back(op);
+                    continue;
+                }
                 fill_lanes(rng, fe, op.a, op, true);
                 if (fe.arity == 2 && fe.second_is_int)
                     fill_int_lanes(rng, fe, op.b);
@@ -371,6 +446,8 @@ namespace
                 exceeded = true;
             c.armed = false;
             ticks = c.ticks;
+            last_blocks = c.blocks;
+            last_block_exceeded = c.block_exceeded;
             if (out_hash)
                 *out_hash = exceeded ? 0 : sim::fnv1a(outb, sizeof outb);
         }
@@ -415,7 +492,17 @@ namespace
                 ++c_calls;
                 ++cl_budget;
                 c_ticks += ticks;
-                log.rec(fe.name, (uint64_t)op.fn, ticks, oh, exceeded);
+                const uint64_t blocks = last_blocks;
+                const bool block_exceeded = last_block_exceeded;
+                c_blocks += blocks;
+                log.rec(fe.name, (uint64_t)op.fn, ticks, oh, (uint64_t)exceeded | (blocks << 1));
+                {
+                    uint64_t& mb = max_blocks[std::string(fe.name) + "/" + fe.tname + "/" + std::to_string(fe.lanes) + "lanes"];
+                    if (blocks > mb)
+                        mb = blocks;
+                }
+                if (blocks > 2000)
+                    ++p_over10k_blocks;
                 std::string fk = std::string(fe.name) + "/" + fe.tname;
                 uint64_t& mt = max_ticks[fk];
                 if (ticks > mt)
@@ -436,7 +523,14 @@ namespace
                     ++p_special;
                 if (op.family == 7)
                     ++p_huge;
-                if (exceeded)
+                if (exceeded && block_exceeded)
+                {
+                    ++cl_blocks;
+                    out.violate(sim::fmt("C14/block-budget-exceeded(%s,%s)", fe.name, fe.tname),
+                                sim::fmt("%s<%s,%s>: more than %llu basic blocks executed in one call (simulated block clock; pc offset %p in the kernels' code; lane 0 bits 0x%llx)", fe.name,
+                                         fe.tname, fe.arch, (unsigned long long)tick_clock().block_budget, tick_clock().block_pc, (unsigned long long)op.a[0]));
+                }
+                else if (exceeded)
                 {
                     int s = tick_clock().exceeded_site;
                     out.violate(sim::fmt("C14/budget-exceeded(%s,%s)@%s", fe.name, fe.tname, site_name(s).c_str()),
@@ -458,6 +552,10 @@ namespace
                 if (kv.second)
                     mt.set("max_" + kv.first, (unsigned long long)kv.second);
             rep.set("x_max_ticks_per_call", mt);
+            Value mb = Value::object();
+            for (auto& kv : max_blocks)
+                mb.set("max_" + kv.first, (unsigned long long)kv.second);
+            rep.set("x_max_basic_blocks_per_call", mb);
             Value st = Value::object(), sm = Value::object();
             const Clock& c = tick_clock();
             for (int i = 0; i < c.n_sites; ++i)
